@@ -1045,6 +1045,7 @@ _dbus_connection_remove_pending_call (DBusConnection  *connection,
                                       DBusPendingCall *pending)
 {
   CONNECTION_LOCK (connection);
+  _dbus_pending_call_set_cancelled_unlocked (pending);
   _dbus_connection_detach_pending_call_and_unlock (connection, pending);
 }
 
@@ -2426,8 +2427,10 @@ _dbus_connection_block_pending_call (DBusPendingCall *pending)
 
   /* Flushing drops the lock, so another thread might have completed
    * the call since we looked. Its reply must not be looked for again
-   * (a late or duplicate reply in the queue would complete it twice). */
-  if (_dbus_pending_call_get_completed_unlocked (pending))
+   * (a late or duplicate reply in the queue would complete it twice).
+   * Likewise a call that has been cancelled must not be completed. */
+  if (_dbus_pending_call_get_completed_unlocked (pending) ||
+      _dbus_pending_call_get_cancelled_unlocked (pending))
     {
       status = _dbus_connection_get_dispatch_status_unlocked (connection);
       _dbus_connection_update_dispatch_status_and_unlock (connection, status);
@@ -2488,6 +2491,17 @@ _dbus_connection_block_pending_call (DBusPendingCall *pending)
   if (_dbus_pending_call_get_completed_unlocked (pending))
     {
       _dbus_verbose ("Pending call completed by dispatch\n");
+      _dbus_connection_update_dispatch_status_and_unlock (connection, status);
+      dbus_pending_call_unref (pending);
+      return;
+    }
+
+  /* Another thread may have cancelled the call while we were waiting.
+   * A cancelled call must not be completed or notified any more, so
+   * stop waiting for it. */
+  if (_dbus_pending_call_get_cancelled_unlocked (pending))
+    {
+      _dbus_verbose ("Pending call cancelled while blocking on it\n");
       _dbus_connection_update_dispatch_status_and_unlock (connection, status);
       dbus_pending_call_unref (pending);
       return;
